@@ -1,9 +1,87 @@
-import Rs1090.Proofs.Decode.Wp
+/-
+BDS 2,0 reader: panic-freedom (C01), serialisation (C07), ranges (C08: the call sign only contains
+characters of the 6-bit set) — for every reader state.
+-/
+import Rs1090.Proofs.Decode.Bds10
+import Rs1090.Proofs.Decode.Bds08
 import Rs1090.Model.Decode.Bds20
 namespace Rs1090.Model.Bds20
-open Rs1090 Rs1090.Model
+open Rs1090 Rs1090.Model Rs1090.Model.CommbA
 
-/-- STUB proof for the STUB reader (replaced together with the model) -/
-theorem read_noPanic : NoPanic read := by unfold read; exact noPanic_fail _
+theorem failIfNot20_noPanic (v : Nat) : (failIfNot20 v).isPanic = false := by
+  unfold failIfNot20; split <;> rfl
+
+/-- obligation on the GENERATED table: every entry prints as a character of the C08 character set -/
+theorem table_charset :
+    Gen.Chars.charLookup08.all (fun b => callsignAlphabet.contains (Char.ofNat b)) = true := by decide
+
+/-- whatever `callsign_read`'s mapping step returns only contains characters of the table -/
+theorem go_charset : ∀ (cs : List Nat) (r : List Char), Bds08.callsign.go cs = .ok r →
+    r.all (fun c => callsignAlphabet.contains c) = true
+  | [], r, h => by
+    unfold Bds08.callsign.go at h
+    cases h; rfl
+  | c :: rest, r, h => by
+    unfold Bds08.callsign.go at h
+    unfold idx at h
+    cases hc : Gen.Chars.charLookup08[c]? with
+    | none => rw [hc] at h; cases h
+    | some b =>
+      rw [hc] at h
+      have hb : callsignAlphabet.contains (Char.ofNat b) = true :=
+        List.all_eq_true.mp table_charset b (List.mem_of_getElem? hc)
+      change (Outcome.bind (Outcome.ok b) _) = _ at h
+      rw [Outcome.bind_ok] at h
+      cases hr : Bds08.callsign.go rest with
+      | ok r' =>
+        rw [hr] at h
+        change (Outcome.bind (Outcome.ok r') _) = _ at h
+        rw [Outcome.bind_ok] at h
+        cases h
+        simp only [List.all_cons, hb, go_charset rest r' hr, Bool.and_self]
+      | err e => rw [hr] at h; change (Outcome.bind (Outcome.err e) _) = _ at h; rw [Outcome.bind_err] at h; cases h
+      | panic x => rw [hr] at h; change (Outcome.bind (Outcome.panic x) _) = _ at h; rw [Outcome.bind_panic] at h; cases h
+
+/-- `bds08::callsign_read`: no panic, and the string is over the 6-bit character set -/
+theorem callsign_wp (Q : List Char → Rd → Prop) (s : Rd)
+    (h : ∀ cs s', cs.all (fun c => callsignAlphabet.contains c) = true → Q cs s') :
+    wp Bds08.callsign Q s := by
+  unfold Bds08.callsign
+  rw [wp_bind]; apply Bds08.callsignChars_wp; intro cs s' hcs
+  exact wp_lift_of (Bds08.go_noPanic cs hcs) (fun r hr => h r s' (go_charset cs r hr))
+
+/-- C01 -/
+theorem read_noPanic : NoPanic read := by
+  intro s
+  unfold NoPanicAt read
+  wp_run
+  apply wp_lift_of (failIfNot20_noPanic _); intro _ _
+  rw [wp_bind]; apply callsign_wp; intro cs s' _
+  wp_run
+
+/-- C07 -/
+theorem read_serGood : ∀ s, wp read (fun r _ => SerGood [] r) s := by
+  intro s
+  unfold read
+  wp_run
+  apply wp_lift_of (failIfNot20_noPanic _); intro _ _
+  rw [wp_bind]; apply callsign_wp; intro cs s' _
+  wp_run
+  exact serGood_tagged _ _ _ rfl rfl
+
+/-- C08: `callsign` is a string over `A–Z 0–9 space #` -/
+theorem read_rangeGood : ∀ s, wp read (fun r _ => RangeGood r) s := by
+  intro s
+  unfold read
+  wp_run
+  apply wp_lift_of (failIfNot20_noPanic _); intro _ _
+  rw [wp_bind]; apply callsign_wp; intro cs s' hcs
+  wp_run
+  apply rangeGood_tagged
+  show Json.inRangeObj [(key! "bds", Json.lit (key! "20")), (key! "callsign", Json.chars cs)] = true
+  rw [inRangeObj_cons_none _ _ _ (by rfl),
+      inRangeObj_cons_some _ _ _ (.charset callsignAlphabet) (by rfl)]
+  show (true && ((cs.all fun c => callsignAlphabet.contains c) && true)) = true
+  rw [hcs]; rfl
 
 end Rs1090.Model.Bds20
